@@ -150,6 +150,12 @@ func c16Eval(c c16Case) (class, detail string) {
 		if _, err := webdav.ConditionalMatch(c.In).ETag(); err == nil {
 			return "accepted-by-ConditionalMatch", c.In
 		}
+		if c.In != "*" && c.In != "" {
+			// a value that denotes no entity tag cannot be compared: an error, not a silent "no match"
+			if ok, err := webdav.ConditionalMatch(c.In).MatchETag("x"); ok || err == nil {
+				return "compared-by-MatchETag", fmt.Sprintf("MatchETag(%q)=%v, %v", "x", ok, err)
+			}
+		}
 	case "time/roundtrip":
 		var unix int64
 		var off int
